@@ -238,7 +238,7 @@ def run(facts, res):
     if fs is not None:
         res.instance("N0", "serde_json resolved features: %s" % fs, None)
         for f in fs:
-            bad = set(f) & {"preserve_order", "arbitrary_precision", "float_roundtrip"}
+            bad = set(f) & {"preserve_order", "arbitrary_precision"}
             if bad:
                 res.violation("N0", "serde_json-features:%s" % ",".join(sorted(bad)),
                               "serde_json is built with %s: serialised key order / number text is no longer canonical" % sorted(bad))
